@@ -19,20 +19,20 @@ package util
 // ---- C15: decoders ----
 
 // binary.Read into *int64 fields cannot panic (library, assumed); only the two fields change.
-//@ func (*OriginTracker).Read returns (err)
+//@ func (*OriginTracker).Read(o, r) returns (err)
 //@   trusted
 //@   assigns o.Version, o.Origin
-//@ func (*OriginTracker).Write returns (err)
+//@ func (*OriginTracker).Write(o, w) returns (err)
 //@   trusted
 //@   assigns nothing
 
-//@ func CreateNode returns (node, err)
+//@ func CreateNode(r) returns (node, err)
 //@   props C15
 //@   mode wrap
 //@   requires r != nil
 //@   ensures err == nil ==> node != nil                                     #node-on-success
 
-//@ func (*SecureSerializableValue).UnmarshalMsg returns (o, err)
+//@ func (*SecureSerializableValue).UnmarshalMsg(spv, buf) returns (o, err)
 //@   props C15
 //@   mode wrap
 //@   assigns spv.Buffer
@@ -41,61 +41,61 @@ package util
 // What the decoders produce: values are *SecureSerializableValue proxies (or absent).
 //@ pred DecodedValue(v *ValueNode) = v != nil && (v.Value == nil || (v.Value is *SecureSerializableValue && v.Value.(*SecureSerializableValue) != nil))
 
-//@ func (*ValueNode).Decode returns (err)
+//@ func (*ValueNode).Decode(vn, buf) returns (err)
 //@   props C15
 //@   mode wrap
 //@   assigns vn.Value
 //@   ensures err == nil ==> DecodedValue(vn)                                 #decoded-shape
-//@ func (*LeafNode).Decode returns (err)
+//@ func (*LeafNode).Decode(ln, buf) returns (err)
 //@   props C15
 //@   mode wrap
 //@   assigns ln.Prefix, ln.Path, ln.Value, ln.Value.Value
 //@   ensures err == nil ==> DecodedValue(ln.Value)                           #decoded-shape
-//@ func (*FullNode).Decode returns (err)
+//@ func (*FullNode).Decode(fn, buf) returns (err)
 //@   props C15
 //@   mode wrap
 //@   assigns fn.Children, fn.Value, fn.Value.Value
 //@   ensures err == nil ==> DecodedValue(fn.Value)                           #decoded-shape
-//@ func (*ExtensionNode).Decode returns (err)
+//@ func (*ExtensionNode).Decode(en, buf) returns (err)
 //@   props C15
 //@   mode wrap
 //@   assigns en.Path, en.NodeKey
 
-//@ func (*deadNodes).decode returns (err)
+//@ func (*deadNodes).decode(d, data) returns (err)
 //@   props C15
 //@   mode wrap
 
 // ---- C15: what the decoders accept re-encodes without panicking ----
 
-//@ func (*SecureSerializableValue).MarshalMsg returns (o, err)
+//@ func (*SecureSerializableValue).MarshalMsg(spv, arg1) returns (o, err)
 //@   props C15
 //@   mode wrap
 //@   assigns nothing
 //@   ensures err == nil
 
-//@ func GetSerializationPrefix returns (p)
+//@ func GetSerializationPrefix(node) returns (p)
 //@   props C15
 //@   requires node != nil
 //@   assigns nothing
-//@ func writeNodePrefix returns (err)
+//@ func writeNodePrefix(w, node) returns (err)
 //@   props C15
 //@   mode wrap
 //@   requires node != nil && w != nil
 //@   assigns nothing
 
-//@ func (*FullNode).indexToByte returns (c)
+//@ func (*FullNode).indexToByte(fn, idx) returns (c)
 //@   props C15
 //@   mode wrap
 //@   assigns nothing
 //@   ensures idx < 10 ==> c == 48 + idx
 //@   ensures idx >= 10 && idx < 16 ==> c == 87 + idx
-//@ func (*FullNode).index returns (i)
+//@ func (*FullNode).index(fn, c) returns (i)
 //@   props C15 C01
 //@   mode wrap
 //@   requires (c >= 48 && c <= 57) || (c >= 97 && c <= 102) || (c >= 65 && c <= 70)      #hex-char
 //@   assigns nothing
 //@   ensures i < 16 && i == HexIdx(c)
-//@ func (*FullNode).GetChild returns (k)
+//@ func (*FullNode).GetChild(fn, hex) returns (k)
 //@   props C15 C01
 //@   mode wrap
 //@   requires (hex >= 48 && hex <= 57) || (hex >= 97 && hex <= 102) || (hex >= 65 && hex <= 70)      #hex-char
@@ -103,47 +103,47 @@ package util
 //@   ensures k == fn.Children[HexIdx(hex)]
 //@   ensures k != nil ==> NumCh(fn) >= 1                                                #a-child-counts
 
-//@ func (*ValueNode).GetValueBytes returns (b)
+//@ func (*ValueNode).GetValueBytes(vn) returns (b)
 //@   props C15 C01
 //@   mode wrap
 //@   requires DecodedValue(vn)
 //@   assigns nothing
-//@ func (*ValueNode).Encode returns (b)
+//@ func (*ValueNode).Encode(vn) returns (b)
 //@   props C15
 //@   mode wrap
 //@   requires DecodedValue(vn)
-//@ func (*LeafNode).encode
+//@ func (*LeafNode).encode(ln, buf)
 //@   props C15
 //@   mode wrap
 //@   requires buf != nil && DecodedValue(ln.Value)
-//@ func (*LeafNode).Encode returns (b)
+//@ func (*LeafNode).Encode(ln) returns (b)
 //@   props C15
 //@   mode wrap
 //@   requires DecodedValue(ln.Value)
-//@ func (*LeafNode).GetHashBytes returns (b)
+//@ func (*LeafNode).GetHashBytes(ln) returns (b)
 //@   props C15
 //@   mode wrap
 //@   requires DecodedValue(ln.Value)
-//@ func (*FullNode).encode
+//@ func (*FullNode).encode(fn, buf)
 //@   props C15
 //@   mode wrap
 //@   requires buf != nil && DecodedValue(fn.Value)
-//@ func (*FullNode).Encode returns (b)
+//@ func (*FullNode).Encode(fn) returns (b)
 //@   props C15
 //@   mode wrap
 //@   requires DecodedValue(fn.Value)
-//@ func (*FullNode).GetHashBytes returns (b)
+//@ func (*FullNode).GetHashBytes(fn) returns (b)
 //@   props C15
 //@   mode wrap
 //@   requires DecodedValue(fn.Value)
-//@ func (*ExtensionNode).encode
+//@ func (*ExtensionNode).encode(en, buf)
 //@   props C15
 //@   mode wrap
 //@   requires buf != nil
-//@ func (*ExtensionNode).Encode returns (b)
+//@ func (*ExtensionNode).Encode(en) returns (b)
 //@   props C15
 //@   mode wrap
-//@ func (*ExtensionNode).GetHashBytes returns (b)
+//@ func (*ExtensionNode).GetHashBytes(en) returns (b)
 //@   props C15
 //@   mode wrap
 
@@ -210,16 +210,16 @@ package util
 //@   pure
 //@   ensures s == HashOf(self)
 
-//@ func Hash returns (s)
+//@ func Hash(text) returns (s)
 //@   props C19
 //@   assigns nothing
 //@   ensures s == HashStr(text) && len(s) == 64
-//@ func MHash returns (s)
+//@ func MHash(h1, h2) returns (s)
 //@   props C19
 //@   assigns nothing
 //@   ensures s == MH(h1, h2) && len(s) == 64
 
-//@ func (*MerkleTree).computeSize returns (tsize, levels)
+//@ func (*MerkleTree).computeSize(mt, leaves) returns (tsize, levels)
 //@   props C19
 //@   opt nilrecv ok
 //@   requires leaves >= 1 && leaves <= 1099511627776
@@ -229,7 +229,7 @@ package util
 //@   loop 1 invariant ll >= 1 && tsize >= 0 && levels >= 0 && tsize + TS(ll) == TS(leaves) && levels + LV(ll) == LV(leaves)    #recurrence
 //@   loop 1 invariant levels + ll <= leaves && tsize + 2*ll <= 2*leaves + levels                                                #bounded
 
-//@ func VerifyMerklePath returns (ok)
+//@ func VerifyMerklePath(hash, path, root) returns (ok)
 //@   props C19
 //@   requires path != nil
 //@   assigns nothing
@@ -238,7 +238,7 @@ package util
 
 // The path for leaf idx: one sibling per level below the root, and folding the leaf hash along it
 // reaches the root (this is "the path produced for any leaf position verifies").
-//@ func (*MerkleTree).GetPathByIndex returns (p)
+//@ func (*MerkleTree).GetPathByIndex(mt, idx) returns (p)
 //@   props C19
 //@   requires TreeWF(mt) && 0 <= idx && idx < mt.leavesCount
 //@   assigns nothing
@@ -253,7 +253,7 @@ package util
 //@   loop 1 invariant mt.leavesCount == 1 ==> path[0] == mt.tree[0]                                                       #one-leaf-path
 
 // Construction: the tree is built as specified.
-//@ func (*MerkleTree).ComputeTree
+//@ func (*MerkleTree).ComputeTree(mt, hashes)
 //@   props C19
 //@   requires len(hashes) >= 1 && len(hashes) <= 1099511627776 && (forall i :: 0 <= i && i < len(hashes) ==> hashes[i] != nil)
 //@   assigns mt.levels, mt.leavesCount, mt.tree
@@ -270,36 +270,36 @@ package util
 //@   loop 3 invariant forall jj :: 0 <= jj && jj < j && 2*jj + 1 < plsize ==> Rel(arrval(mt.tree), pl0, plsize, jj)        #pairs-so-far
 //@   loop 3 invariant forall i2 :: 0 <= i2 && i2 < len(hashes) ==> mt.tree[i2] == HashOf(hashes[i2])                       #leaves-kept
 
-//@ func (*MerkleTree).GetRoot returns (r)
+//@ func (*MerkleTree).GetRoot(mt) returns (r)
 //@   props C19
 //@   requires len(mt.tree) >= 1
 //@   assigns nothing
 //@   ensures r == mt.tree[len(mt.tree)-1]
-//@ func (*MerkleTree).GetTree returns (t)
+//@ func (*MerkleTree).GetTree(mt) returns (t)
 //@   props C19
 //@   assigns nothing
 //@   ensures t == mt.tree
-//@ func (*MerkleTree).GetLeafIndex returns (i)
+//@ func (*MerkleTree).GetLeafIndex(mt, hash) returns (i)
 //@   props C19
 //@   requires mt.leavesCount >= 0 && mt.leavesCount <= len(mt.tree) && hash != nil
 //@   assigns nothing
 //@   ensures i == -1 ==> forall j :: 0 <= j && j < mt.leavesCount ==> mt.tree[j] != HashOf(hash)                        #absent
 //@   ensures i != -1 ==> 0 <= i && i < mt.leavesCount && mt.tree[i] == HashOf(hash) && forall j :: 0 <= j && j < i ==> mt.tree[j] != HashOf(hash)     #first-match
 //@   loop 1 invariant 0 <= i && i <= mt.leavesCount && forall j :: 0 <= j && j < i ==> mt.tree[j] != hs                 #none-before
-//@ func (*MerkleTree).GetPath returns (p)
+//@ func (*MerkleTree).GetPath(mt, hash) returns (p)
 //@   props C19
 //@   requires TreeWF(mt) && mt.leavesCount <= len(mt.tree) && hash != nil
 //@   assigns nothing
 //@   ensures (exists j :: 0 <= j && j < mt.leavesCount && mt.tree[j] == HashOf(hash)) ==>
 //@      | FoldL(HashOf(hash), arrval(p.Nodes), off(p.Nodes), p.LeafIndex, len(p.Nodes)) == mt.tree[len(mt.tree)-1]        #lookup-path-folds-to-root
-//@ func (*MerkleTree).VerifyPath returns (ok)
+//@ func (*MerkleTree).VerifyPath(mt, hash, path) returns (ok)
 //@   props C19
 //@   requires len(mt.tree) >= 1 && hash != nil && path != nil
 //@   assigns nothing
 //@   ensures ok == (FoldL(HashOf(hash), arrval(path.Nodes), off(path.Nodes), path.LeafIndex, len(path.Nodes)) == mt.tree[len(mt.tree)-1])    #fold-spec
 
 // Loading an exported tree: the three fields are exactly the arguments / the recurrence.
-//@ func (*MerkleTree).SetTree returns (err)
+//@ func (*MerkleTree).SetTree(mt, leavesCount, tree) returns (err)
 //@   props C19
 //@   requires leavesCount >= 1 && leavesCount <= 1099511627776
 //@   assigns mt.levels, mt.tree, mt.leavesCount
@@ -359,7 +359,7 @@ package util
 // Well-formed paths inside nodes.
 //@ pred PathsWF(n Node) = (n is *ExtensionNode ==> HexPath(n.(*ExtensionNode).Path)) && (n is *LeafNode ==> HexPath(n.(*LeafNode).Path))
 
-//@ func (*MerklePatriciaTrie).matchingPrefix returns (r)
+//@ func (*MerklePatriciaTrie).matchingPrefix(mpt, p1, p2) returns (r)
 //@   props C01
 //@   opt nilrecv ok
 //@   assigns nothing
@@ -368,7 +368,7 @@ package util
 //@   ensures len(r) < len(p1) && len(r) < len(p2) ==> p1[len(r)] != p2[len(r)]                                      #maximal
 //@   loop 1 invariant 0 <= idx && idx <= len(p1) && idx <= len(p2) && (forall j :: 0 <= j && j < idx ==> p1[j] == p2[j])
 
-//@ func concat returns (r)
+//@ func concat(s1, s2) returns (r)
 //@   props C01
 //@   mode wrap
 //@   assigns nothing
@@ -378,58 +378,58 @@ package util
 //@   ensures HexPath(s1) && HexPath(s2) ==> HexPath(r)                                                              #hex-in-hex-out
 
 // ---- node accessors ----
-//@ func (*FullNode).GetNumChildren returns (count)
+//@ func (*FullNode).GetNumChildren(fn) returns (count)
 //@   props C01 C02
 //@   mode wrap
 //@   assigns nothing
 //@   ensures count == NumCh(fn)                                                                                      #counts-children
 //@   loop 1 invariant count == NCh(fn.Children, rangeindex + 1) && count <= rangeindex + 1
-//@ func (*FullNode).HasValue returns (b)
+//@ func (*FullNode).HasValue(fn) returns (b)
 //@   props C01 C02
 //@   assigns nothing
 //@   ensures b == HasVal(fn.Value)
-//@ func (*LeafNode).HasValue returns (b)
+//@ func (*LeafNode).HasValue(ln) returns (b)
 //@   props C01 C02
 //@   assigns nothing
 //@   ensures b == HasVal(ln.Value)
-//@ func (*FullNode).PutChild
+//@ func (*FullNode).PutChild(fn, hex, child)
 //@   props C01 C02
 //@   mode wrap
 //@   requires IsHex(hex)                                                                                             #hex-char
 //@   assigns fn.Children
 //@   ensures fn.Children == store(old(fn.Children), HexIdx(hex), child)                                              #one-slot-written
 //@   ensures NumCh(fn) == old(NumCh(fn)) + (child != nil ? 1 : 0) - (old(fn.Children[HexIdx(hex)]) != nil ? 1 : 0)      #child-count
-//@ func (*FullNode).GetValue returns (v)
+//@ func (*FullNode).GetValue(fn) returns (v)
 //@   props C01
 //@   assigns nothing
 //@   ensures (fn.Value == nil ==> v == nil) && (fn.Value != nil ==> v == fn.Value.Value)
-//@ func (*LeafNode).GetValue returns (v)
+//@ func (*LeafNode).GetValue(ln) returns (v)
 //@   props C01
 //@   assigns nothing
 //@   ensures (HasVal(ln.Value) ==> v == ln.Value.Value) && (!HasVal(ln.Value) ==> v == nil)
-//@ func (*FullNode).SetValue
+//@ func (*FullNode).SetValue(fn, value)
 //@   props C01 C02
 //@   mode wrap
 //@   assigns fn.Value, fn.Value.Value
 //@   ensures fn.Value != nil && fn.Value.Value == value && (old(fn.Value) != nil ==> fn.Value == old(fn.Value)) && (old(fn.Value) == nil ==> fresh(fn.Value))
-//@ func (*LeafNode).SetValue
+//@ func (*LeafNode).SetValue(ln, value)
 //@   props C01 C02
 //@   mode wrap
 //@   assigns ln.Value, ln.Value.Value
 //@   ensures ln.Value != nil && ln.Value.Value == value && (old(ln.Value) != nil ==> ln.Value == old(ln.Value)) && (old(ln.Value) == nil ==> fresh(ln.Value))
 
-//@ func NewFullNode returns (fn)
+//@ func NewFullNode(value) returns (fn)
 //@   props C01 C02
 //@   mode wrap
 //@   assigns nothing
 //@   ensures fn != nil && fresh(fn) && fn.Value != nil && fresh(fn.Value) && fn.Value.Value == value && NumCh(fn) == 0
 //@   ensures forall i :: 0 <= i && i < 16 ==> fn.Children[i] == nil
-//@ func NewLeafNode returns (ln)
+//@ func NewLeafNode(prefix, path, origin, value) returns (ln)
 //@   props C01 C02
 //@   mode wrap
 //@   assigns nothing
 //@   ensures ln != nil && fresh(ln) && ln.Path == path && ln.Prefix == prefix && ln.Value != nil && fresh(ln.Value) && ln.Value.Value == value
-//@ func NewExtensionNode returns (en)
+//@ func NewExtensionNode(path, key) returns (en)
 //@   props C01 C02
 //@   mode wrap
 //@   assigns nothing
@@ -447,7 +447,7 @@ package util
 
 // A-store (trusted): the store hands out canonical, well-formed nodes; a key recorded as a branch
 // key resolves to a branch. Only the missing-key list of the trie changes.
-//@ func (*MerklePatriciaTrie).getNode returns (n, err)
+//@ func (*MerklePatriciaTrie).getNode(mpt, key) returns (n, err)
 //@   trusted
 //@   props C16 C17
 //@   opt bodyfor C16 C17
@@ -466,7 +466,7 @@ package util
 // Frames: callers (C01 / C02) see the node heaps only; the collector, the transaction cache and the
 // store are separate objects those specifications never read. The body is checked against the
 // full frame (assigns + bodyassigns).
-//@ func (*MerklePatriciaTrie).insertNode returns (n, key, err)
+//@ func (*MerklePatriciaTrie).insertNode(mpt, oldNode, newNode) returns (n, key, err)
 //@   trusted
 //@   props C04 C14
 //@   opt bodyfor C04 C14
@@ -483,7 +483,7 @@ package util
 //@   ensures err == nil && oldNode != nil && NodeHB(oldNode, heapof(OriginTracker.Origin)) != NodeHB(newNode, heapof(OriginTracker.Origin))
 //@      | ==> !(NodeHash(oldNode, heapof(OriginTracker.Origin)) in CCof(mpt).Changes)                                                                        #replaced-node-is-no-longer-pending
 //@   ensures CollectorWF(mpt)                                                                                                                                #collector-stays-wf
-//@ func (*MerklePatriciaTrie).deleteNode returns (err)
+//@ func (*MerklePatriciaTrie).deleteNode(mpt, node) returns (err)
 //@   trusted
 //@   props C04 C05
 //@   opt bodyfor C04 C05
@@ -498,14 +498,14 @@ package util
 //@   ensures !old(NodeHash(node, heapof(OriginTracker.Origin)) in CCof(mpt).Changes) ==> NodeHash(node, heapof(OriginTracker.Origin)) in CCof(mpt).Deletes  #stored-node-is-recorded-dead
 
 // Deep copies by encode/decode (value equality: C14). The copy is a new object with the same shape.
-//@ func (*FullNode).Clone returns (r)
+//@ func (*FullNode).Clone(fn) returns (r)
 //@   trusted
 //@   assigns nothing
 //@   ensures r is *FullNode && r.(*FullNode) != nil && fresh(r.(*FullNode)) && HasVal(r.(*FullNode).Value) == HasVal(fn.Value) && NumCh(r.(*FullNode)) == NumCh(fn)
 //@   ensures forall i :: 0 <= i && i < 16 ==> (r.(*FullNode).Children[i] == nil) == (fn.Children[i] == nil) && len(r.(*FullNode).Children[i]) == len(fn.Children[i]) && (fn.Children[i] != nil ==> KeyIsFull(r.(*FullNode).Children[i]) == KeyIsFull(fn.Children[i]))
 //@   ensures r.(*FullNode).Value != nil ==> fresh(r.(*FullNode).Value)
 //@   ensures ValNodeOK(fn.Value) ==> ValNodeOK(r.(*FullNode).Value)
-//@ func (*LeafNode).Clone returns (r)
+//@ func (*LeafNode).Clone(ln) returns (r)
 //@   trusted
 //@   assigns nothing
 //@   ensures r is *LeafNode && r.(*LeafNode) != nil && fresh(r.(*LeafNode)) && HasVal(r.(*LeafNode).Value) == HasVal(ln.Value)
@@ -513,7 +513,7 @@ package util
 //@   ensures r.(*LeafNode).Value != nil ==> fresh(r.(*LeafNode).Value)
 //@   ensures ValNodeOK(ln.Value) ==> ValNodeOK(r.(*LeafNode).Value)
 //@   ensures HexPath(ln.Path) ==> HexPath(r.(*LeafNode).Path)
-//@ func (*ExtensionNode).Clone returns (r)
+//@ func (*ExtensionNode).Clone(en) returns (r)
 //@   trusted
 //@   assigns nothing
 //@   ensures r is *ExtensionNode && r.(*ExtensionNode) != nil && fresh(r.(*ExtensionNode))
@@ -521,21 +521,21 @@ package util
 //@   ensures len(r.(*ExtensionNode).NodeKey) == len(en.NodeKey) && KeyIsFull(r.(*ExtensionNode).NodeKey) == KeyIsFull(en.NodeKey)
 //@   ensures HexPath(en.Path) ==> HexPath(r.(*ExtensionNode).Path)
 
-//@ func (*OriginTrackerNode).SetOrigin
+//@ func (*OriginTrackerNode).SetOrigin(otn, origin)
 //@   props C01
 //@   mode wrap
 //@   assigns otn.OriginTracker.(*OriginTracker).Origin, otn.OriginTracker.(*OriginTracker).Version
 
 // ================= state trie (C01 / C02): lookup, insert, delete =================
 
-//@ func (*MerklePatriciaTrie).insertLeaf returns (n, key, err)
+//@ func (*MerklePatriciaTrie).insertLeaf(mpt, oldNode, value, prefix, path) returns (n, key, err)
 //@   props C01 C02
 //@   holds mpt.mutex W
 //@   mode wrap
 //@   requires ValOK(value) && HexPath(path)
 //@   assigns heap(OriginTracker.Origin), heap(OriginTracker.Version)
 //@   ensures err == nil ==> n != nil && n is *LeafNode && key != nil && len(key) == 32 && !KeyIsFull(key) && Canon(n) && PathsWF(n)
-//@ func (*MerklePatriciaTrie).insertExtension returns (n, key, err)
+//@ func (*MerklePatriciaTrie).insertExtension(mpt, oldNode, path, key) returns (n, key, err)
 //@   props C01 C02
 //@   holds mpt.mutex W
 //@   mode wrap
@@ -543,14 +543,14 @@ package util
 //@   assigns heap(OriginTracker.Origin), heap(OriginTracker.Version)
 //@   ensures err == nil ==> n != nil && n is *ExtensionNode && key != nil && len(key) == 32 && !KeyIsFull(key) && Canon(n) && PathsWF(n)
 
-//@ func (*MerklePatriciaTrie).getNodeValueRaw returns (v, err)
+//@ func (*MerklePatriciaTrie).getNodeValueRaw(mpt, path, node) returns (v, err)
 //@   props C01
 //@   holds mpt.mutex R
 //@   mode wrap
 //@   requires node != nil && Canon(node) && PathsWF(node) && HexPath(path)
 //@   assigns mpt.missingNodeKeys
 
-//@ func (*MerklePatriciaTrie).insert returns (n, k, err)
+//@ func (*MerklePatriciaTrie).insert(mpt, value, key, prefix, path) returns (n, k, err)
 //@   props C01 C02
 //@   holds mpt.mutex W
 //@   mode wrap
@@ -559,7 +559,7 @@ package util
 //@   ensures err == nil ==> n != nil && k != nil && len(k) == 32 && (n is *FullNode ==> KeyIsFull(k))
 //@   ensures err == nil && KeyIsFull(key) ==> n is *FullNode                                                   #a-branch-stays-a-branch
 
-//@ func (*MerklePatriciaTrie).insertAfterPathTraversal returns (n, k, err)
+//@ func (*MerklePatriciaTrie).insertAfterPathTraversal(mpt, value, node) returns (n, k, err)
 //@   props C01 C02
 //@   holds mpt.mutex W
 //@   mode wrap
@@ -568,7 +568,7 @@ package util
 //@   ensures err == nil ==> n != nil && k != nil && len(k) == 32 && (n is *FullNode ==> KeyIsFull(k))
 //@   ensures err == nil && node is *FullNode ==> n is *FullNode                                                #a-branch-stays-a-branch
 
-//@ func (*MerklePatriciaTrie).insertAtNode returns (n, k, err)
+//@ func (*MerklePatriciaTrie).insertAtNode(mpt, value, node, prefix, path) returns (n, k, err)
 //@   props C01 C02
 //@   holds mpt.mutex W
 //@   mode wrap
@@ -577,7 +577,7 @@ package util
 //@   ensures err == nil ==> n != nil && k != nil && len(k) == 32 && (n is *FullNode ==> KeyIsFull(k))
 //@   ensures err == nil && node is *FullNode ==> n is *FullNode                                                #a-branch-stays-a-branch
 
-//@ func (*MerklePatriciaTrie).delete returns (n, k, err)
+//@ func (*MerklePatriciaTrie).delete(mpt, key, prefix, path) returns (n, k, err)
 //@   props C01 C02
 //@   holds mpt.mutex W
 //@   mode wrap
@@ -590,7 +590,7 @@ package util
 //@   ensures key == nil ==> err != nil                                                                            #nothing-below-a-nil-key
 
 // A branch left with one child and no value (tempNode) is replaced by that child, one nibble longer.
-//@ func (*MerklePatriciaTrie).liftOnlyChild returns (n, k, err)
+//@ func (*MerklePatriciaTrie).liftOnlyChild(mpt, node, tempNode, prefix) returns (n, k, err)
 //@   props C01 C02
 //@   holds mpt.mutex W
 //@   mode wrap
@@ -601,7 +601,7 @@ package util
 //@   ensures err == nil ==> k != nil && len(k) == 32 && ((n is *FullNode) == KeyIsFull(k)) && (n is *LeafNode || n is *ExtensionNode)
 
 // The remaining path is exhausted at node: only a value stored exactly here may be removed.
-//@ func (*MerklePatriciaTrie).deleteAfterPathTraversal returns (n, k, err)
+//@ func (*MerklePatriciaTrie).deleteAfterPathTraversal(mpt, node, prefix) returns (n, k, err)
 //@   props C01 C02
 //@   holds mpt.mutex W
 //@   mode wrap
@@ -613,7 +613,7 @@ package util
 //@   ensures err == nil && n == nil ==> k == nil
 //@   ensures err == nil && node is *FullNode ==> n != nil
 
-//@ func (*MerklePatriciaTrie).deleteAtNode returns (n, k, err)
+//@ func (*MerklePatriciaTrie).deleteAtNode(mpt, key, node, prefix, path) returns (n, k, err)
 //@   props C01 C02
 //@   holds mpt.mutex W
 //@   mode wrap
@@ -634,49 +634,49 @@ package util
 //@ guarded MerklePatriciaTrie.deleteNodes by mutex
 //@ guarded MerklePatriciaTrie.missingNodeKeys by missingNodeKeysMu
 
-//@ func (*MerklePatriciaTrie).setRoot
+//@ func (*MerklePatriciaTrie).setRoot(mpt, root)
 //@   props C16
 //@   holds mpt.mutex W
-//@ func (*MerklePatriciaTrie).GetRoot returns (k)
+//@ func (*MerklePatriciaTrie).GetRoot(mpt) returns (k)
 //@   props C16
-//@ func (*MerklePatriciaTrie).GetNodeDB returns (db)
+//@ func (*MerklePatriciaTrie).GetNodeDB(mpt) returns (db)
 //@   props C16
-//@ func (*MerklePatriciaTrie).GetMissingNodeKeys returns (keys)
-//@   props C16
-//@   mode wrap
-//@ func (*MerklePatriciaTrie).Insert returns (k, err)
+//@ func (*MerklePatriciaTrie).GetMissingNodeKeys(mpt) returns (keys)
 //@   props C16
 //@   mode wrap
-//@ func (*MerklePatriciaTrie).Delete returns (k, err)
+//@ func (*MerklePatriciaTrie).Insert(mpt, path, value) returns (k, err)
 //@   props C16
 //@   mode wrap
-//@ func (*MerklePatriciaTrie).GetNodeValueRaw returns (v, err)
+//@ func (*MerklePatriciaTrie).Delete(mpt, path) returns (k, err)
 //@   props C16
 //@   mode wrap
-//@ func (*MerklePatriciaTrie).GetChanges returns (root, changes, deletes, start)
+//@ func (*MerklePatriciaTrie).GetNodeValueRaw(mpt, path) returns (v, err)
 //@   props C16
 //@   mode wrap
-//@ func (*MerklePatriciaTrie).GetChangeCount returns (n)
+//@ func (*MerklePatriciaTrie).GetChanges(mpt) returns (root, changes, deletes, start)
 //@   props C16
 //@   mode wrap
-//@ func (*MerklePatriciaTrie).Iterate returns (err)
+//@ func (*MerklePatriciaTrie).GetChangeCount(mpt) returns (n)
 //@   props C16
 //@   mode wrap
-//@ func (*MerklePatriciaTrie).IterateFrom returns (err)
+//@ func (*MerklePatriciaTrie).Iterate(mpt, ctx, handler, visitNodeTypes) returns (err)
+//@   props C16
+//@   mode wrap
+//@ func (*MerklePatriciaTrie).IterateFrom(mpt, ctx, node, handler, visitNodeTypes) returns (err)
 //@   props C16
 //@   mode wrap
 // A traversal reads nodes that a concurrent mutator deletes from the store: it is atomic only while
 // the trie mutex is held (for reading) from its first to its last node access.
-//@ func (*MerklePatriciaTrie).iterate returns (err)
+//@ func (*MerklePatriciaTrie).iterate(mpt, ctx, path, key, handler, visitNodeTypes) returns (err)
 //@   props C16
 //@   mode wrap
 //@   holds mpt.mutex R
-//@ func (*MerklePatriciaTrie).MergeChanges returns (err)
+//@ func (*MerklePatriciaTrie).MergeChanges(mpt, newRoot, changes, deletes, startRoot) returns (err)
 //@   props C16
 //@   mode wrap
 // C03: a stale child (the parent's root moved on since the child was opened) is rejected before
 // anything is touched; merging a child with the same root changes nothing either.
-//@ func (*MerklePatriciaTrie).mergeChanges returns (err)
+//@ func (*MerklePatriciaTrie).mergeChanges(mpt, newRoot, changes, deletes, startRoot) returns (err)
 //@   props C16 C03
 //@   mode wrap
 //@   holds mpt.mutex W
@@ -685,13 +685,13 @@ package util
 //@      | && DBPut == old(DBPut) && DBDel == old(DBDel)
 //@      | && heapof(OriginTracker.Origin) == old(heapof(OriginTracker.Origin))                                   #stale-merge-changes-nothing
 //@   ensures str(old(mpt.root)) == str(newRoot) ==> err == nil && mpt.root == old(mpt.root) && DBPut == old(DBPut) && DBDel == old(DBDel)      #merging-the-same-root-changes-nothing
-//@ func (*MerklePatriciaTrie).MergeDB returns (err)
+//@ func (*MerklePatriciaTrie).MergeDB(mpt, ndb, root, deadNodes) returns (err)
 //@   props C16
 //@   mode wrap
-//@ func (*MerklePatriciaTrie).GetAllMissingNodes returns (keys, err)
+//@ func (*MerklePatriciaTrie).GetAllMissingNodes(mpt) returns (keys, err)
 //@   props C16
 //@   mode wrap
-//@ func (*MerklePatriciaTrie).Validate returns (err)
+//@ func (*MerklePatriciaTrie).Validate(mpt) returns (err)
 //@   props C16
 //@   mode wrap
 
@@ -790,7 +790,7 @@ package util
 //@ pred DisjCD(cc *ChangeCollector) = cc.Changes != nil && cc.Deletes != nil && (forall k string :: !(k in cc.Changes && k in cc.Deletes))
 //@ pred ChangesWF(cc *ChangeCollector) = forall k string :: k in cc.Changes ==> cc.Changes[k] != nil && cc.Changes[k].New != nil
 
-//@ func (*ChangeCollector).AddChange
+//@ func (*ChangeCollector).AddChange(cc, oldNode, newNode)
 //@   props C04 C05 C03
 //@   mode wrap
 //@   requires newNode != nil && cc.Changes != nil && cc.Deletes != nil && ChangesWF(cc)
@@ -810,7 +810,7 @@ package util
 //@   ensures ChangesWF(cc)
 //@   ensures old(DisjCD(cc)) && (oldNode == nil || NodeHash(oldNode, heapof(OriginTracker.Origin)) != NodeHash(newNode, heapof(OriginTracker.Origin))) ==> DisjCD(cc)      #changes-and-deletes-stay-disjoint
 
-//@ func (*ChangeCollector).DeleteChange
+//@ func (*ChangeCollector).DeleteChange(cc, oldNode)
 //@   props C04 C05 C03
 //@   mode wrap
 //@   requires oldNode != nil && cc.Changes != nil && cc.Deletes != nil
@@ -822,7 +822,7 @@ package util
 //@   ensures forall k string :: k != NodeHash(oldNode, heapof(OriginTracker.Origin)) ==> (k in cc.Changes) == old(k in cc.Changes) && cc.Changes[k] == old(cc.Changes[k]) && (k in cc.Deletes) == old(k in cc.Deletes) && cc.Deletes[k] == old(cc.Deletes[k])      #other-keys-untouched
 //@   ensures old(DisjCD(cc)) ==> DisjCD(cc)                                                                                                                               #changes-and-deletes-stay-disjoint
 
-//@ func (*ChangeCollector).Validate returns (err)
+//@ func (*ChangeCollector).Validate(cc) returns (err)
 //@   props C05
 //@   mode wrap
 //@   requires cc.Changes != nil && cc.Deletes != nil
@@ -831,7 +831,7 @@ package util
 
 // UpdateChanges hands the store one batch: a copy of every collected node under that copy's own hash;
 // it sends delete requests only when asked to (the save mode that pairs with dead-node pruning never deletes).
-//@ func (*ChangeCollector).UpdateChanges returns (err)
+//@ func (*ChangeCollector).UpdateChanges(cc, ndb, origin, includeDeletes) returns (err)
 //@   props C04 C05 C14
 //@   mode wrap
 //@   requires ndb != nil && cc.Changes != nil && cc.Deletes != nil && ChangesWF(cc) && (forall k string :: k in cc.Deletes ==> cc.Deletes[k] != nil)
@@ -845,7 +845,7 @@ package util
 // MergeDB hands every (key, node) pair of the donor store to this handler. The trie refers to the
 // missing nodes by those keys, so the repair works only if the node is still addressed by the same
 // key afterwards, and the donor's node objects must not be modified.
-//@ func (*MerklePatriciaTrie).MergeDB$1 returns (err)
+//@ func (*MerklePatriciaTrie).MergeDB$1(ctx, key, node) returns (err)
 //@   props C14 C17
 //@   mode wrap
 //@   holds mpt.mutex W
@@ -859,20 +859,20 @@ package util
 // (stored-under-its-hash / batch-keyed-by-hash) and passes it on unchanged to the store below it.
 // StoreKeyed: every node held by a memory store hashes to the key it is held under.
 //@ pred StoreKeyed(mndb *MemoryNodeDB) = mndb.Nodes != nil && (forall k string :: k in mndb.Nodes ==> mndb.Nodes[k] != nil && NodeHB(mndb.Nodes[k], heapof(OriginTracker.Origin)) == k)
-//@ func (*MemoryNodeDB).putNode returns (err)
+//@ func (*MemoryNodeDB).putNode(mndb, key, node) returns (err)
 //@   props C14
 //@   mode wrap
 //@   requires StoreKeyed(mndb) && node != nil && str(key) == NodeHB(node, heapof(OriginTracker.Origin))        #stored-under-its-hash
 //@   assigns mapof(mndb.Nodes)
 //@   ensures err == nil && StoreKeyed(mndb) && str(key) in mndb.Nodes                                          #store-stays-keyed-by-hash
 //@   ensures forall k string :: k != str(key) ==> (k in mndb.Nodes) == old(k in mndb.Nodes) && mndb.Nodes[k] == old(mndb.Nodes[k])      #other-keys-untouched
-//@ func (*MemoryNodeDB).PutNode returns (err)
+//@ func (*MemoryNodeDB).PutNode(mndb, key, node) returns (err)
 //@   props C14
 //@   mode wrap
 //@   requires mndb.mutex != nil && StoreKeyed(mndb) && node != nil && str(key) == NodeHB(node, heapof(OriginTracker.Origin))        #stored-under-its-hash
 //@   assigns mapof(mndb.Nodes)
 //@   ensures err == nil && StoreKeyed(mndb) && str(key) in mndb.Nodes                                          #store-stays-keyed-by-hash
-//@ func (*MemoryNodeDB).MultiPutNode returns (err)
+//@ func (*MemoryNodeDB).MultiPutNode(mndb, keys, nodes) returns (err)
 //@   props C14
 //@   mode wrap
 //@   requires mndb.mutex != nil && StoreKeyed(mndb) && KeyedByHash(keys, nodes)                                 #batch-keyed-by-hash
@@ -881,50 +881,50 @@ package util
 //@   loop 1 invariant StoreKeyed(mndb)
 // C03: a layered store writes to its own (current) level only; the level below (prev: the parent's
 // store) receives no put, and no delete unless the store was built to propagate deletes.
-//@ func (*LevelNodeDB).putNode returns (err)
+//@ func (*LevelNodeDB).putNode(lndb, key, node) returns (err)
 //@   props C14 C03
 //@   mode wrap
 //@   requires lndb.current != nil && node != nil && str(key) == NodeHB(node, heapof(OriginTracker.Origin))     #stored-under-its-hash
 //@   assigns ghost(DBPut)
 //@   ensures forall d Ref :: d != ref(lndb.current) ==> DBPut[d] == old(DBPut[d])                               #only-the-own-level-is-written
-//@ func (*LevelNodeDB).PutNode returns (err)
+//@ func (*LevelNodeDB).PutNode(lndb, key, node) returns (err)
 //@   props C14 C03
 //@   mode wrap
 //@   requires lndb.mutex != nil && lndb.current != nil && node != nil && str(key) == NodeHB(node, heapof(OriginTracker.Origin))     #stored-under-its-hash
 //@   assigns ghost(DBPut)
 //@   ensures forall d Ref :: d != ref(lndb.current) ==> DBPut[d] == old(DBPut[d])                               #only-the-own-level-is-written
-//@ func (*LevelNodeDB).MultiPutNode returns (err)
+//@ func (*LevelNodeDB).MultiPutNode(lndb, keys, nodes) returns (err)
 //@   props C14 C03
 //@   mode wrap
 //@   requires lndb.mutex != nil && lndb.current != nil && KeyedByHash(keys, nodes)                              #batch-keyed-by-hash
 //@   assigns ghost(DBPut)
 //@   ensures forall d Ref :: d != ref(lndb.current) ==> DBPut[d] == old(DBPut[d])                               #only-the-own-level-is-written
 //@   loop 1 invariant forall d Ref :: d != ref(lndb.current) ==> DBPut[d] == old(DBPut[d])
-//@ func (*LevelNodeDB).deleteNode returns (err)
+//@ func (*LevelNodeDB).deleteNode(lndb, key) returns (err)
 //@   props C03
 //@   mode wrap
 //@   requires lndb.current != nil && lndb.prev != nil && lndb.DeletedNodes != nil
 //@   assigns ghost(DBDel), mapof(lndb.DeletedNodes)
 //@   ensures !lndb.PropagateDeletes ==> (forall d Ref :: d != ref(lndb.current) ==> DBDel[d] == old(DBDel[d]))      #deletes-stay-in-the-own-level
-//@ func (*LevelNodeDB).DeleteNode returns (err)
+//@ func (*LevelNodeDB).DeleteNode(lndb, key) returns (err)
 //@   props C03
 //@   mode wrap
 //@   requires lndb.mutex != nil && lndb.current != nil && lndb.prev != nil && lndb.DeletedNodes != nil
 //@   assigns ghost(DBDel), mapof(lndb.DeletedNodes)
 //@   ensures !lndb.PropagateDeletes ==> (forall d Ref :: d != ref(lndb.current) ==> DBDel[d] == old(DBDel[d]))      #deletes-stay-in-the-own-level
-//@ func (*LevelNodeDB).MultiDeleteNode returns (err)
+//@ func (*LevelNodeDB).MultiDeleteNode(lndb, keys) returns (err)
 //@   props C03
 //@   mode wrap
 //@   requires lndb.mutex != nil && lndb.current != nil && lndb.prev != nil && lndb.DeletedNodes != nil
 //@   assigns ghost(DBDel), mapof(lndb.DeletedNodes)
 //@   ensures !lndb.PropagateDeletes ==> (forall d Ref :: d != ref(lndb.current) ==> DBDel[d] == old(DBDel[d]))      #deletes-stay-in-the-own-level
 //@   loop 1 invariant !lndb.PropagateDeletes ==> (forall d Ref :: d != ref(lndb.current) ==> DBDel[d] == old(DBDel[d]))
-//@ func (*LevelNodeDB).getNode returns (n, err)
+//@ func (*LevelNodeDB).getNode(lndb, key) returns (n, err)
 //@   props C03
 //@   mode wrap
 //@   requires lndb.current != nil && lndb.prev != nil
 //@   assigns nothing
-//@ func (*LevelNodeDB).GetNode returns (n, err)
+//@ func (*LevelNodeDB).GetNode(lndb, key) returns (n, err)
 //@   props C03
 //@   mode wrap
 //@   requires lndb.mutex != nil && lndb.current != nil && lndb.prev != nil
